@@ -119,6 +119,44 @@ fn c07_zoom_step_with_next() {
     zoom_step_with_next(3, 3, 4);
 }
 
+// @harness c07_zoom_step_size2
+// @props C07
+// @tier thorough
+// @kind stretch
+// @timeout 3000
+// @mem 32
+// @functions as c07_zoom_step_with_next
+// @bounds as c07_zoom_step_with_next with resolution 2 and value length 0..=5 (a value can span 4 records)
+// @assumes as c07_zoom_step_with_next
+// @stubs as c07_zoom_step_with_next
+// @sub src/bbi/bigwigwrite.rs ::: zoom_item.channel.send(handle).await.expect("Couln't send"); ::: crate::verif_support::env::direct_send(&mut zoom_item.channel, handle);
+#[kani::proof]
+#[kani::unwind(8)]
+#[kani::stub(tokio::runtime::Handle::spawn, fake_spawn_skip)]
+#[kani::stub(alloc::vec::Vec::push, push_within_capacity)]
+fn c07_zoom_step_size2() {
+    zoom_step_with_next(2, 2, 5);
+}
+
+// @harness c07_zoom_step_size4
+// @props C07
+// @tier thorough
+// @kind stretch
+// @timeout 3000
+// @mem 32
+// @functions as c07_zoom_step_with_next
+// @bounds as c07_zoom_step_with_next with resolution 4 and value length 0..=6
+// @assumes as c07_zoom_step_with_next
+// @stubs as c07_zoom_step_with_next
+// @sub src/bbi/bigwigwrite.rs ::: zoom_item.channel.send(handle).await.expect("Couln't send"); ::: crate::verif_support::env::direct_send(&mut zoom_item.channel, handle);
+#[kani::proof]
+#[kani::unwind(7)]
+#[kani::stub(tokio::runtime::Handle::spawn, fake_spawn_skip)]
+#[kani::stub(alloc::vec::Vec::push, push_within_capacity)]
+fn c07_zoom_step_size4() {
+    zoom_step_with_next(4, 4, 6);
+}
+
 fn zoom_step_with_next(size_lo: u32, size_hi: u32, maxlen: u32) {
     let size: u32 = if size_lo == size_hi { size_lo } else { kani::any() };
     kani::assume(size >= size_lo && size <= size_hi);
@@ -135,7 +173,8 @@ fn zoom_step_with_next(size_lo: u32, size_hi: u32, maxlen: u32) {
     let cur = Value { start: vs, end: ve, value: 4.0 };
     let next = Value { start: ns, end: ns, value: 1.0 };
     let mut env = Env::new();
-    let (ztx, _zrx) = futures::channel::mpsc::channel::<Msg>(4);
+    let (ztx, zrx) = futures::channel::mpsc::channel::<Msg>(4);
+    core::mem::forget(zrx);
     let live = if has_live {
         Some(ZoomRecord { chrom: 7, start: ls, end: le, summary: zsum(lb as u64, 1.0) })
     } else {
@@ -153,7 +192,7 @@ fn zoom_step_with_next(size_lo: u32, size_hi: u32, maxlen: u32) {
     assert!(env.sent() == 0 && env.spawned() == 0, "[no_flush] nothing may be flushed before the slot is full or the chromosome ends");
     // walk records then the live record
     let n = zi.records.len();
-    assert!(n <= 4, "[count] more records than the value can span");
+    assert!(n <= 5, "[count] more records than the value can span");
     let mut total: u64 = 0;
     let mut prev_end: u32 = 0;
     let mut first = true;
